@@ -121,7 +121,13 @@ def judge(text, warun, pool):
     r = {'go_status': gs, 'wa_status': ws, 'go_out': gout, 'wa_out': wout, 'wa_err': werr}
     if gs != 'ok':
         r['cls'] = 'go_bad'
-        r['sig'] = 'go:' + gs
+        first = ''
+        for ln in gout.decode('utf-8', 'replace').splitlines():
+            if ln.startswith('./main.go:') or ln.startswith('panic:') or ln.startswith('fatal error'):
+                first = re.sub(r'^\./main\.go:\d+:\d+: ', '', ln)
+                first = re.sub(r'[A-Za-z_]*\d+[A-Za-z_0-9]*', 'N', first)[:120]
+                break
+        r['sig'] = 'go:' + gs + ':' + first
     elif ws == 'timeout':
         r['cls'] = 'wa_timeout'
         r['sig'] = 'wa_timeout'
